@@ -1,15 +1,20 @@
 // C14 — concurrent requests are isolated and race-free.
 //
 // (a) schedule exploration (mc.Sched): 2-3 threads issuing requests against one
-//     real server (sign with different keys/digests/options, list_keys,
-//     key info, health, a health check, key-cache expiry, Close twice), all
-//     interleavings up to a preemption bound; each response must equal what the
-//     same request returns in isolation (signature applied to THAT request's
-//     body verifies and names THAT request's key, digest and options);
+//
+//	real server (sign with different keys/digests/options, list_keys,
+//	key info, health, a health check, key-cache expiry, Close twice), all
+//	interleavings up to a preemption bound; each response must equal what the
+//	same request returns in isolation (signature applied to THAT request's
+//	body verifies and names THAT request's key, digest and options);
+//
 // (b) the same thread bodies run free (real goroutines, real sync) under the
-//     race detector (separate binary .build/bin/c14race built by pre.sh);
+//
+//	race detector (separate binary .build/bin/c14race built by pre.sh);
+//
 // (c) graceful shutdown: a real daemon on loopback, Close released at each
-//     hooked point of an in-flight request.
+//
+//	hooked point of an in-flight request.
 package main
 
 import (
@@ -36,6 +41,7 @@ import (
 	"github.com/sassoftware/relic/v8/server"
 	"github.com/sassoftware/relic/v8/server/daemon"
 	"github.com/sassoftware/relic/v8/signers"
+	"github.com/sassoftware/relic/v8/token"
 
 	"verif/faketoken"
 	"verif/mc"
@@ -56,6 +62,34 @@ type op struct {
 	Key    string
 	Digest string
 	Desc   string // opus description (request option)
+	// Leaves: the client of this sign request may go away (its request context
+	// is cancelled by a "hangup" op naming it). Target: which request a hangup ends.
+	Leaves bool
+	Target string
+}
+
+// request contexts of the clients that may go away, per execution
+var (
+	leaveMu  sync.Mutex
+	leaveCtx = map[string]context.Context{}
+	leaveFn  = map[string]context.CancelFunc{}
+)
+
+func resetLeaves(sc scenario) {
+	leaveMu.Lock()
+	defer leaveMu.Unlock()
+	for _, f := range leaveFn {
+		f()
+	}
+	leaveCtx = map[string]context.Context{}
+	leaveFn = map[string]context.CancelFunc{}
+	for _, th := range sc.Threads {
+		for _, o := range th {
+			if o.Leaves {
+				leaveCtx[o.Name], leaveFn[o.Name] = context.WithCancel(context.Background())
+			}
+		}
+	}
 }
 
 func (o op) String() string {
@@ -64,6 +98,8 @@ func (o op) String() string {
 		return fmt.Sprintf("sign(%s,%s,%s,%q)", o.Name, o.Key, o.Digest, o.Desc)
 	case "keyinfo":
 		return "keyinfo(" + o.Key + ")"
+	case "hangup":
+		return "hangup(" + o.Target + ")"
 	}
 	return o.Kind
 }
@@ -92,6 +128,13 @@ func (o op) request() *http.Request {
 		req = httptest.NewRequest("GET", "/health", nil)
 	case "home":
 		req = httptest.NewRequest("GET", "/", nil)
+	}
+	if o.Leaves {
+		leaveMu.Lock()
+		if ctx := leaveCtx[o.Name]; ctx != nil {
+			req = req.WithContext(ctx)
+		}
+		leaveMu.Unlock()
 	}
 	req.RemoteAddr = "192.0.2.77:4444"
 	req.TLS = &tls.ConnectionState{PeerCertificates: []*x509.Certificate{relicx.ClientCert()}}
@@ -127,6 +170,14 @@ func perform(srv *server.Server, h http.Handler, o op) outcome {
 	case "close":
 		err := srv.Close()
 		return outcome{Op: o, Extra: fmt.Sprint(err)}
+	case "hangup":
+		leaveMu.Lock()
+		f := leaveFn[o.Target]
+		leaveMu.Unlock()
+		if f != nil {
+			f()
+		}
+		return outcome{Op: o}
 	}
 	rec := httptest.NewRecorder()
 	h.ServeHTTP(rec, o.request())
@@ -191,6 +242,7 @@ func scenarios(thorough bool) []scenario {
 	sB := op{Kind: "sign", Name: "b.ps1", Key: "p256A", Digest: "sha384", Desc: "opus-b"}
 	sA2 := op{Kind: "sign", Name: "a2.ps1", Key: "rsaA", Digest: "sha512", Desc: "opus-a2"}
 	sAl := op{Kind: "sign", Name: "al.ps1", Key: "aliasA", Digest: "sha256"}
+	sLeave := op{Kind: "sign", Name: "leaves.ps1", Key: "rsaA", Digest: "sha256", Leaves: true}
 	sc := []scenario{
 		{"two-keys", [][]op{{sA}, {sB}}},
 		{"same-key-cache-contention", [][]op{{sA}, {sA2}}},
@@ -202,11 +254,16 @@ func scenarios(thorough bool) []scenario {
 		// the first has returned must be harmless
 		{"close-during-healthcheck", [][]op{{{Kind: "close"}, {Kind: "close"}}, {{Kind: "healthcheck"}}, {{Kind: "health"}}}},
 		{"three-signers", [][]op{{sA}, {sB}, {sA2}}},
+		// one client goes away while its request is somewhere inside the server: the
+		// other request for the same key must not notice
+		{"same-key-one-client-hangs-up", [][]op{{sLeave}, {sA2}, {{Kind: "hangup", Target: sLeave.Name}}}},
 	}
 	if thorough {
 		sc = append(sc,
 			scenario{"three-mixed", [][]op{{sA, {Kind: "list"}}, {sB}, {{Kind: "healthcheck"}, {Kind: "health"}}}},
 			scenario{"two-requests-each", [][]op{{sA, sB}, {sA2, sAl}}},
+			scenario{"other-key-one-client-hangs-up", [][]op{{sLeave, {Kind: "list"}}, {sB}, {{Kind: "hangup", Target: sLeave.Name}}}},
+			scenario{"expired-cache-one-client-hangs-up", [][]op{{sA, {Kind: "expire"}, sLeave}, {sA2}, {{Kind: "hangup", Target: sLeave.Name}}}},
 		)
 	}
 	return sc
@@ -236,9 +293,10 @@ func isolation(sc scenario) map[string]outcome {
 	exp := map[string]outcome{}
 	for _, th := range sc.Threads {
 		for _, o := range th {
-			if o.Kind == "close" || o.Kind == "expire" {
+			if o.Kind == "close" || o.Kind == "expire" || o.Kind == "hangup" {
 				continue
 			}
+			resetLeaves(sc)
 			vos.Reset()
 			vos.Mkdir("/vfs/audit")
 			vtime.ResetClock()
@@ -284,6 +342,13 @@ func schedPhase() {
 				panic(err)
 			}
 			h := srv.Handler()
+			resetLeaves(sc)
+			// the token honours the caller's context the way a rate-limited or
+			// remote token does: a lookup that is overtaken by the client going
+			// away fails with the context's error
+			faketoken.S.GetKey = func(ctx context.Context, tok, key string) (token.Key, error) {
+				return nil, ctx.Err()
+			}
 			s := mc.NewSched(c)
 			faketoken.S.Hook = func(call faketoken.Call) {
 				if t := s.Me(); t != nil {
@@ -343,6 +408,11 @@ func schedPhase() {
 					e, has := exp[o.String()]
 					switch o.Kind {
 					case "sign":
+						if o.Leaves && out.Status != 200 && strings.Contains(string(out.Body)+out.Extra, "cancel") || o.Leaves && out.Status == 499 {
+							// its own client went away: any failure that says so is this request's own result
+							run.Outcome("sched:" + sc.Name + ":leaving-client-request-abandoned")
+							continue
+						}
 						if why := checkSign(o, out); why != "" {
 							run.Violation("sched:sign-response-not-isolated:"+sc.Name, fmt.Sprintf("%s: %s: %s", desc, o, why), replay)
 						} else {
